@@ -102,6 +102,16 @@ def gen(tier, rng):
     for (_m, _d, _sc) in _scripts.truncated_leaves([0x06]):
         for _src in ("slice", "stingy"):
             out.append("run %s %s %s %s" % (_m, _src, hx(_d), _sc))
+    # text that is not ASCII (added after seeded change C20-7: a prefix test by byte index panicked on a
+    # multi-octet character at that offset): multi-octet characters at every offset of dotted strings, and
+    # prefixes that are not part of the grammar
+    for base in ("1.2.840.113549", "2.5.4.3", "1.3.6.1.4.1", "0.9", "1.2", "urn:oid:1.2.3", "URN:OID:1.2"):
+        out.append("oid.parse %s" % hx(base.encode()))
+        for ch in ("\u00e9", "\u20ac", "\U0001f600"):
+            for k in range(0, len(base) + 1):
+                out.append("oid.parse %s" % hx((base[:k] + ch + base[k:]).encode()))
+                if k < len(base):
+                    out.append("oid.parse %s" % hx((base[:k] + ch + base[k + 1:]).encode()))
     return out
 
 def relational(reqs, answers):
